@@ -64,10 +64,19 @@ var hclKeywords = map[string]bool{"null": true, "true": true, "false": true, "fo
 // keyTokens writes an object-constructor key: a bare identifier where HCL
 // allows one (as the documentation's examples do), a quoted string otherwise.
 func keyTokens(k string) hclwrite.Tokens {
-	if hclsyntax.ValidIdentifier(k) && !hclKeywords[k] {
-		return hclwrite.TokensForIdentifier(k)
+	if !hclsyntax.ValidIdentifier(k) || hclKeywords[k] {
+		return strTokens(k)
 	}
-	return strTokens(k)
+	// ValidIdentifier follows Unicode ID_Continue, which includes format and
+	// combining characters the scanner does not take everywhere (U+FEFF at the
+	// start of an identifier is "Invalid character"): bare keys are limited to
+	// letters, digits, `_` and `-`.
+	for _, r := range k {
+		if !(unicode.IsLetter(r) || unicode.IsDigit(r) || r == '_' || r == '-') {
+			return strTokens(k)
+		}
+	}
+	return hclwrite.TokensForIdentifier(k)
 }
 
 func kvsTokens(k KVs) hclwrite.Tokens {
